@@ -257,6 +257,23 @@ def concrete_roundtrips(repo, seed, n):
         g = nastran.rdgrids(f)
         if g is None or g[:, 0].tolist() != [float(x) for x in gids] or not np.allclose(g[:, 2:5], xyz, rtol=1e-6, atol=1e-7):
             return ev, dict(pair="wtgrids/rdgrids", ids=gids, xyz=xyz.tolist(), got=None if g is None else g.tolist())
+        # GRID option combinations: cp / cd scalar or vector, ps and seid blank or given (all four combinations), small and large field forms
+        for cpv in (0, [int(x) for x in rng.randint(0, 50, ng)]):
+            for cdv in (0, [int(x) for x in rng.randint(0, 50, ng)]):
+                for psv in ("", 123456, 13):
+                    for seidv in ("", 7):
+                        for form in ("{:16.8f}", "{:8.3f}"):
+                            xyz2 = np.round(rng.randn(ng, 3) * 10, 3)
+                            f = io.StringIO()
+                            nastran.wtgrids(f, gids, cpv, xyz2, cdv, psv, seidv, form); f.seek(0); ev += 1
+                            g = nastran.rdgrids(f)
+                            want = np.zeros((ng, 8))
+                            want[:, 0] = gids; want[:, 1] = cpv; want[:, 2:5] = xyz2; want[:, 5] = cdv
+                            want[:, 6] = 0 if psv == "" else psv
+                            want[:, 7] = 0 if seidv == "" else seidv
+                            if g is None or g.shape != want.shape or not np.allclose(g, want, rtol=1e-6, atol=1e-7):
+                                bad = [] if g is None or g.shape != want.shape else [["id", "cp", "x", "y", "z", "cd", "ps", "seid"][c_] for c_ in range(8) if not np.allclose(g[:, c_], want[:, c_], rtol=1e-6, atol=1e-7)]
+                                return ev, dict(pair="wtgrids/rdgrids", what="GRID fields not recovered: %s" % bad, cp=str(cpv), cd=str(cdv), ps=str(psv), seid=str(seidv), form=form)
         # DMIG: forms 1 (square), 2 (rectangular), 6 (symmetric) x real / complex, with zeros (skipped terms), partial DOF, spoints
         nr = rng.randint(1, 5)
         rows = [(10 * (k + 1), int(dd)) for k in range(nr) for dd in sorted(rng.choice([1, 2, 3, 4, 5, 6], rng.randint(1, 3), replace=False))]
